@@ -20,6 +20,7 @@ pub mod c16;
 pub mod c17;
 pub mod c18;
 pub mod c20;
+pub mod c20b;
 
 pub fn run(ctx: &mut Ctx) -> bool {
     match ctx.id.as_str() {
